@@ -221,18 +221,22 @@ Inductive netresult := Resp (r : response) | Fail (t : transport).
 Inductive fault :=
 | FStatus (code : nat)      (* answered with this status and a CouchDB error document *)
 | FGarbage                  (* answered 200 with a body that is not JSON *)
-| FDrop (t : transport).    (* no answer *)
+| FDrop (t : transport)     (* no answer; the request is not processed *)
+| FLost (t : transport).    (* the request IS processed by the server, the answer is lost on the wire *)
 Definition fault_result (ft : fault) : netresult :=
   match ft with
   | FStatus code => Resp (jerr code)
   | FGarbage => Resp (mkResp 200 true None PGarbage)
   | FDrop t => Fail t
+  | FLost t => Fail t
   end.
+Definition processed (ft : fault) : bool := match ft with FLost _ => true | _ => false end.
 (* at most one fault per operation: (index of the request within the operation, fault) *)
 Definition fspec := option (nat * fault).
 Definition send (c : cfg) (f : fspec) (n : nat) (sv : server) (rq : request) : server * netresult :=
   match f with
-  | Some (k, ft) => if Nat.eqb k n then (sv, fault_result ft)
+  | Some (k, ft) => if Nat.eqb k n
+                    then ((if processed ft then fst (serve c sv rq) else sv), fault_result ft)
                     else let '(sv', r) := serve c sv rq in (sv', Resp r)
   | None => let '(sv', r) := serve c sv rq in (sv', Resp r)
   end.
